@@ -466,10 +466,16 @@ pub fn judge(sc: &SchedScenario, mut x: Execution, want: &[&str]) -> SchedOutcom
     }
 
     // ---- content survives flush + reopen (C06 / C02) ----
-    if has("C06") || has("C02") {
+    if has("C06") || has("C02") || has("C03") {
         let fr = std::panic::catch_unwind(std::panic::AssertUnwindSafe(|| crate::world::block_on(x.world.dev().flush_meta())));
         match fr {
             Ok(Ok(())) => {
+                if has("C03") {
+                    let rep = crate::spec::check_image(&x.world.sim.borrow().files[0]);
+                    if let Some((c, d)) = rep.first_problem(true) {
+                        out.push(viol(sc, &x, "C03", format!("checker:{}:after-concurrent-ops:{}", c, sig), format!("after all operations finished and flush_meta() returned Ok: {}", d)));
+                    }
+                }
                 let sim2 = Sim::new(x.world.sim.borrow().files.clone());
                 match open_chain(&sim2, 0, &sc.cfg, false) {
                     Ok(d2) => {
